@@ -154,7 +154,7 @@ PROPS = {
         "pf": True,
         "n": {"quick": 220, "thorough": 6000},
         "compare": "member",
-        "cone": ["Bytes", "Regex", "Generated", "Channel", "Network", "Replay", "SessionLemmas", "Netconf", "NcSession", "NcSessionLemmas", "NcSegLemmas", "NcExtraLemmas"],
+        "cone": ["Bytes", "Regex", "Generated", "Channel", "Network", "Replay", "SessionLemmas", "Netconf", "NcSession", "NcSessionLemmas", "NcSegLemmas", "NcExtraLemmas", "DecideLang", "GeneratedSkel", "Decide"],
         "rx": True,
         "rule": "CLI sessions (generic SendCommand / GetPrompt / SendInteractive, network SendCommand with an implicit privilege change, AcquirePriv) "
                 "with the device going silent after byte k of the exchange: k from a dry run of the same case, every k of one small exchange "
@@ -242,14 +242,14 @@ PROPS = {
     },
     "C09": {
         "n": {"quick": 200, "thorough": 5000},
-        "cone": ["Bytes", "BytesLemmas", "Regex", "Generated", "Netconf", "NetconfLemmas", "NcSession", "NcSessionLemmas"],
+        "cone": ["Bytes", "BytesLemmas", "Regex", "Generated", "Netconf", "NetconfLemmas", "NcSession", "NcSessionLemmas", "DecideLang", "GeneratedSkel", "Decide"],
         "rx": True,
         "rule": NC_RULE + " The 4 x 3 table {base:1.0, base:1.1 advertised} x {preferred none/1.0/1.1} exhaustively first, then random extra capabilities "
                 "(incl. near-miss URNs), nc: prefix, layouts, session-ids up to 2^64-1, missing / truncated hello; non-trivial = every case.",
         "level_text": "Theorems C09_table / _11_iff (for all capability lists), C09_client_hello (by computation on the generated hello strings with the "
                       "library's own capability pattern), C09_open_spec / _open_complete / _fail_is_netconf_error. Tied to capabilities.go/driver.go by "
                       "replaying real Open calls against generated server hellos.",
-        "level_note": "parse_hello (regex extraction over hello layouts) is exercised differentially, not proved in general. Trusted: kernel, generated "
+        "level_note": "C09_determine_version_is_source: the body of determineVersion is translated statement by statement from the Go AST on every run and its interpretation is proved equal to the model for all capability lists and preferences (incl. the delimiter switch). parse_hello (regex extraction over hello layouts) is exercised differentially, not proved in general. Trusted: kernel, generated "
                       "constants/regex ASTs + RX, extraction, harness.",
     },
     "C14": {
